@@ -49,7 +49,7 @@ def main():
         },
         "engines": [
             {"name": "simkit", "path": "simkit/", "serves_properties": [c["property_id"] for c in reg],
-             "kind_free_text": "deterministic simulation kit: seeded PRNG streams, virtual-time asyncio loop with inline seeded executor, baton-passed real threads with settrace pre-emption and simulated Lock, simulated wall clock and tmpfs storage with fault plans, pristine-fork reference, delta-debugging minimiser, replay files"},
+             "kind_free_text": "deterministic simulation kit: seeded PRNG streams, virtual-time asyncio loop with inline seeded executor, baton-passed real threads with line- and instruction-level pre-emption (settrace / sys.monitoring) and simulated Lock, simulated wall clock and tmpfs storage with fault plans, companion process and pristine-fork reference, delta-debugging minimiser incl. process-history preludes, replay files"},
         ],
         "checks": reg,
         "not_applicable": [{"property_id": k, "reason": v} for k, v in sorted(NA.items())],
